@@ -62,8 +62,12 @@ def run(ctx, replay):
     ctx.extra["events"] = summ["events"]
     ctx.extra["events_by_kind"] = kinds
     traces = vcore.split_traces(vcore.read_lines(tr))
-    shared = [t for t in traces if shared_stamp(t)]
-    unique = [t for t in traces if not shared_stamp(t)]
+    # conformance only: two creations in one tick, or (only with the proposed hook tsdb.VerifGate) a writer that stood
+    # between GetOrCreateMemoryDatabase and AcquireWrite during a flush -- rows are lost there, as the model says
+    def lossy(t):
+        return shared_stamp(t) or any('"ev":"WriteGet"' in ln for ln in t)
+    shared = [t for t in traces if lossy(t)]
+    unique = [t for t in traces if not lossy(t)]
     up = os.path.join(ctx.scratch, "famlife-unique.ndjson")
     sp = os.path.join(ctx.scratch, "famlife-shared.ndjson")
     with open(up, "w") as f:
